@@ -79,6 +79,15 @@ def main():
         meta = json.load(open(os.path.join(work, 'meta.json')))
     except Exception:
         pass
+    prev = {}
+    try:
+        prev = json.load(open(os.path.join(dst, 'meta.json'))).get('confirmed_by_main_session', {})
+    except Exception:
+        pass
+    if 'pinned_suite' not in res and 'pinned_suite' in prev:
+        res['pinned_suite'] = prev['pinned_suite']
+    if prev.get('check') and not prev['check'].get('with_failing_input'):
+        res['first_run_before_strengthening'] = prev['check']
     meta['confirmed_by_main_session'] = res
     json.dump(meta, open(os.path.join(dst, 'meta.json'), 'w'), indent=1)
     print(json.dumps(res, indent=1)[:3000])
